@@ -19,13 +19,13 @@ TECHNIQUE = "per-variable differential between the transpiled model and an evalu
 RULE = ("documents of 3 kinds: (table) the exhaustive depth-2 table outer x position x inner over + - * / ^ MOD and unary minus, IF/THEN/ELSE with "
         "compound comparison operands, AND/OR chains, NOT(...), each built-in (ABS MIN MAX INT SQRT EXP LN LOG10 SIN COS TAN SAFEDIV ROUND PERCENT "
         "STEP RAMP SINWAVE COSWAVE PULSE) with compound arguments, in 4 spellings; (random) seeded trees to depth 5 in 2 spellings with 7 variable-name shapes "
-        "(plain, underscore, space, quoted, upper, mixed case, digit suffix); comparisons of exactly equal operands and literals with up to 10 significant digits are included; every fourth equation is also carried by a flow marked <non_negative/> (clamped at zero); every third document repeats all variables with the same equation texts and other constant values in two named modules (names resolve inside their own model), each with an input wired to a root variable by a <connect>, half of them with the sub-models listed before the root model; (loud) one out-of-grammar equation per document: unknown function, "
+        "(plain, underscore, space, quoted, upper, mixed case, digit suffix); comparisons of exactly equal operands and literals with up to 10 significant digits are included; every fourth equation is also carried by a flow marked <non_negative/> (clamped at zero); every third document repeats all variables with the same equation texts and other constant values in two named modules (names resolve inside their own model), each with an input wired to a root variable by a <connect>, half of them with the sub-models listed before the root model, followed in the same process by small documents that wire the module differently or not at all; (loud) one out-of-grammar equation per document: unknown function, "
         "dangling operator, unbalanced parentheses, unknown identifier, keyword misuse. programs = documents compiled; distinct_nontrivial = "
         "distinct (outer, position, inner) / tree digests whose value changes if compound operands are pasted without parentheses.")
 ASSUMPTIONS = ["^ binds tighter than unary minus, which binds tighter than * / MOD; chains of ^ are always printed with explicit parentheses",
                "MOD is judged for positive operands only; ROUND away from .5; STEP(h,t0)=h for t>=t0; RAMP(s,t0)=s*(t-t0) for t>t0",
                "boolean conditions are generated as OR-of-AND chains of comparisons (the grammar has no parenthesised boolean groups)"]
-REQUIRED = {"non_negative_flows_compared": 200, "wired_inputs_checked": 5, "documents_with_modules": 5, "documents_compiled": 20, "variables_compared": 1000, "loud_cases": 8, "ir_nodes_seen": 1000}
+REQUIRED = {"rewired_follow_up_documents": 10, "non_negative_flows_compared": 200, "wired_inputs_checked": 5, "documents_with_modules": 5, "documents_compiled": 20, "variables_compared": 1000, "loud_cases": 8, "ir_nodes_seen": 1000}
 BUDGET_S = {"quick": 110, "thorough": 1500}
 
 CLOCKVAR = ("clock var", "TIME*2 + 1", lambda t: t * 2 + 1)     # a variable that moves with time (INIT / DELAY of a reference)
@@ -547,6 +547,8 @@ def run_case(case):
     scopes = [("", vals)]
     modules = None
     connects = {}
+    wiring = {}
+    wired_src = ["alpha", "ZETA", None]
     if case.get("modules"):
         modules = {}
         for mname, (fa, fb) in (("North", (1.5, 0.25)), ("South Wing", (0.5, 1.0))):
@@ -559,7 +561,12 @@ def run_case(case):
             mels.append(dict(kind="aux", name="wired_probe", eqn="wired_in * 2 - 1"))
             modules[mname] = mels
             scopes.append((sname(mname) + ".", mvals))
-            connects[mname] = [("%s.wired_in" % mname.replace(" ", "_"), "alpha")]
+            # which root variable feeds the input differs from document to document (one module in three is left unwired: its input keeps
+            # its placeholder) - nothing of an earlier document's wiring may survive in this process
+            src = wired_src[(case.get("seed", case.get("part", 0)) + len(connects)) % 3]
+            wiring[sname(mname) + "."] = src
+            if src is not None:
+                connects[mname] = [("%s.wired_in" % mname.replace(" ", "_"), src)]
         counters["documents_with_modules"] = 1
     try:
         # (every other document with modules lists the sub-models BEFORE the root model that declares and wires them)
@@ -576,7 +583,28 @@ def run_case(case):
     w = None
     groups = {}
     try:
-        for (vn, key, tree, sidx) in nonneg:
+        if modules and w is None:
+            # the same process compiles more small documents in which the module's two inputs are wired differently: both wired, then only the
+            # second one (the first keeps its placeholder), then the other way round - nothing of an earlier document's wiring may survive
+            plans = [dict(a="alpha", b="ZETA"), dict(a=None, b="alpha"), dict(a="ZETA", b=None), dict(a=None, b=None)]
+            for step_, plan in enumerate(plans):
+                mod2 = "%s_f%d" % (mod, step_)
+                mels2 = [dict(kind="aux", name="wired in", access="input", eqn="100"), dict(kind="aux", name="other in", access="input", eqn="1000"),
+                         dict(kind="aux", name="wired_probe", eqn="wired_in * 2 - 1"), dict(kind="aux", name="other_probe", eqn="other_in + 1")]
+                els2 = [dict(kind="aux", name="alpha", eqn="7"), dict(kind="aux", name="ZETA", eqn="1.5")]
+                cons = [("North.wired_in", plan["a"])] * bool(plan["a"]) + [("North.other_in", plan["b"])] * bool(plan["b"])
+                cls2, _s2, _d2 = XM.compile_and_load(XM.document(mod2, RUN, els2, modules={"North": mels2}, connects={"North": cons} if cons else {}, modules_first=bool(step_ % 2)), "xm", mod2)
+                m2 = cls2()
+                val = {"alpha": 7.0, "ZETA": 1.5}
+                got2 = (m2.equation("north.wiredProbe", 1.5), m2.equation("north.otherProbe", 1.5))
+                want2 = ((val[plan["a"]] if plan["a"] else 100.0) * 2 - 1, (val[plan["b"]] if plan["b"] else 1000.0) + 1)
+                cleanup(mod2)
+                counters["rewired_follow_up_documents"] = counters.get("rewired_follow_up_documents", 0) + 1
+                if not (X.close(got2[0], want2[0]) and X.close(got2[1], want2[1])):
+                    w = dict(kind="value", key="module-rewired-in-a-later-document", scope="north.", equation="wired_in * 2 - 1 ; other_in + 1", style="plain", tree="-", t=1.5,
+                             got=[float(x) for x in got2], expected=list(want2), wiring=plan, earlier_documents=plans[:step_])
+                    break
+        for (vn, key, tree, sidx) in ([] if w else nonneg):
             for t in TIMES:
                 try:
                     ref, dist = ev_x(tree, vals, t)
@@ -596,9 +624,10 @@ def run_case(case):
             # the wired input is the root's alpha
             got = m.equation(scope + "wiredProbe", 1.5)
             counters["wired_inputs_checked"] = counters.get("wired_inputs_checked", 0) + 1
-            if not X.close(got, vals["alpha"] * 2 - 1, rel=1e-9, ab=1e-10):
+            want = (vals[wiring[scope]] if wiring[scope] is not None else 100.0) * 2 - 1
+            if not X.close(got, want, rel=1e-9, ab=1e-10):
                 w = dict(kind="value", key="module-input-wired-by-connect", scope=scope, equation="wired_in * 2 - 1", style="plain", tree="(wired_in * 2 - 1)", t=1.5,
-                         got=float(got), expected=vals["alpha"] * 2 - 1)
+                         got=float(got), expected=want, wired_to=wiring[scope])
                 break
         for (scope, svals), (vn, key, tree, sidx) in ([] if w else [(sc, e) for sc in scopes for e in eqs]):
             for t in TIMES:
